@@ -16,6 +16,25 @@ class Unknown(Exception):
     pass
 
 
+class Vec(list):
+    """minimal stand-in for a 1-d array in guard evaluation (element-wise comparison only)"""
+
+    def _cmp(self, o, f):
+        return Vec(f(x, o) for x in self)
+
+    def __le__(self, o):
+        return self._cmp(o, lambda a, b: a <= b)
+
+    def __lt__(self, o):
+        return self._cmp(o, lambda a, b: a < b)
+
+    def __ge__(self, o):
+        return self._cmp(o, lambda a, b: a >= b)
+
+    def __gt__(self, o):
+        return self._cmp(o, lambda a, b: a > b)
+
+
 class TermEval:
     """evaluates abstract terms on a representative valuation; `leaf(term)` supplies the values of opaque terms"""
 
@@ -41,6 +60,10 @@ class TermEval:
             return self.ev(t[1])[t[2]]
         if h == "sub":
             return self.ev(t[1])[self.ev(t[2])]
+        if h == "attr" and t[2] == "name":
+            v = self.ev(t[1])
+            if isinstance(v, tuple) and v and v[0] == "enum":
+                return v[2]
         if h == "slice":
             return slice(self.ev(t[1]), self.ev(t[2]), self.ev(t[3]))
         if h == "neg":
@@ -87,6 +110,10 @@ class TermEval:
                 return {"max": max, "min": min}[leafname](*args)
             if leafname == "bool":
                 return bool(args[0])
+            if leafname in ("array", "asarray"):
+                return Vec(args[0])
+            if leafname == "where":
+                return (Vec(i for i, b in enumerate(args[0]) if b),)
             raise Unknown("call %s" % name)
         if h == "mcall":
             recv = self.ev(t[2])
